@@ -544,10 +544,10 @@ def run(ctx):
     nested = {"nested_lists": True}
     upd = {"opts": {"updatable": True}}
     rt = {"nested_lists": True, "opts": {"pointers": True, "link": True, "exposed": True, "force_ids": True}}
-    plan = [("core", None, ctx.pick(60, 2500)), ("core", nested, ctx.pick(50, 2000)), ("names", nested, ctx.pick(30, 1200)),
-            ("plain", nested, ctx.pick(20, 800)), ("text", None, ctx.pick(20, 800)), ("core", upd, ctx.pick(20, 700))]
+    plan = [("core", None, ctx.pick(40, 1500)), ("core", nested, ctx.pick(35, 1200)), ("names", nested, ctx.pick(20, 600)),
+            ("plain", nested, ctx.pick(15, 400)), ("text", None, ctx.pick(15, 500)), ("core", upd, ctx.pick(15, 300))]
     if hasattr(isogen.Generator, "make_pointer"):      # generator options added later by the runtime engine: client pointers, __link, exposed fields
-        plan.append(("core", rt, ctx.pick(40, 1500)))
+        plan.append(("core", rt, ctx.pick(25, 500)))
     results = ts_types.run_cases(ctx, cli, plan, "c27", [("props.c27", "analyze")], with_checked_in=True, probe=True)
     key = "props.c27.analyze"
     violations, stats, samples, fps = [], collections.Counter(), [], set()
